@@ -23,6 +23,21 @@ def cks_uf(alg, w, prefix):
     return f(*[bv(b, 8) for b in prefix])
 
 
+def cks_hints(spec, packet):
+    """result width/signedness of the checksum service an emitted encoder asks for, by algorithm name as written in the
+    emitted lookup (the contract types a service by its result type; only C++ spells that type in the emitted code).
+    '*' is the fallback for a name the declaration does not mention."""
+    h = {'*': (4, False)}
+    for f in packet.fields:
+        sem = spec.resolve(f)
+        if sem[0] == 'checksum':
+            v = (WIDTH[sem[1]], sem[1].startswith('i'))
+            if '*' not in h or h['*'] == (4, False):
+                h['*'] = v
+            h.setdefault(sem[2], v)
+    return h
+
+
 def ref_enc(ctx, packet, msg, out=None, path=''):
     """append the encoding of msg (a pspec.Msg of `packet`) to out; returns out"""
     spec = ctx.spec
